@@ -7,16 +7,26 @@ from . import bindings, protocol, render
 def run(rep: Report, repo: Repo, tier: str) -> None:
     rep.unit("src/cminx/aggregator.py", "src/cminx/documentation_types.py")
     rep.assume("ParseTreeWalker visits commands in source order", "the display text for the variadic 'args' type is not decided")
-    protocol.rule_classstack(rep, repo, "C09-R1")
-    bindings.rule_class_bindings(rep, repo, "C09-R2")
-    render.rule_class_rendering(rep, repo, "C09-R3")
-    render.rule_member_independence(rep, repo, "C09-R3m")
+    with rep.isolated():
+        protocol.rule_classstack(rep, repo, "C09-R1")
+    with rep.isolated():
+        bindings.rule_class_bindings(rep, repo, "C09-R2")
+    with rep.isolated():
+        render.rule_class_rendering(rep, repo, "C09-R3")
+    with rep.isolated():
+        render.rule_member_independence(rep, repo, "C09-R3m")
     from . import tables
-    tables.rule_settings_plain(rep, repo, "C09-R2s")
-    protocol.rule_rejections(rep, repo, "C09-R4", kinds=["cpp_class", "cpp_member", "cpp_constructor", "cpp_attr", "cpp_end_class"])
+    with rep.isolated():
+        tables.rule_settings_plain(rep, repo, "C09-R2s")
+    with rep.isolated():
+        protocol.rule_accepted_arities(rep, repo, "C09-R6", kinds=["cpp_class", "cpp_member", "cpp_constructor", "cpp_attr"])
+    with rep.isolated():
+        protocol.rule_rejections(rep, repo, "C09-R4", kinds=["cpp_class", "cpp_member", "cpp_constructor", "cpp_attr", "cpp_end_class"])
     # the inner-class list and the member fields are list / field elements inside the class directive: every line indented
     from . import writer_rules
-    writer_rules.rule_line_start_indent(rep, repo, "C09-R5")
+    with rep.isolated():
+        writer_rules.rule_line_start_indent(rep, repo, "C09-R5")
     if tier == "thorough":
         from . import trace_rules
-        trace_rules.rule_class_traces(rep, repo, "C09-I")
+        with rep.isolated():
+            trace_rules.rule_class_traces(rep, repo, "C09-I")
